@@ -282,6 +282,7 @@ def install(eng):
   R(builtins.hasattr, h_hasattr, 'hasattr')
   R(builtins.getattr, h_getattr, 'getattr')
   R(builtins.sorted, h_sorted, 'sorted')
+  R(builtins.slice, lambda en, *a: slice(*a), 'slice (constructor)')
   R(math.prod, h_prod, 'math.prod')
   R(math.ceil, h_ceil, 'math.ceil')
   R(math.floor, h_floor, 'math.floor')
